@@ -174,7 +174,7 @@ func cmdCheck(args []string) {
 		}
 		for _, pol := range pols {
 			opt := exec.Options{Workers: *workers, MaxSteps: 3000000, Unwind: 40, MaxPaths: h.MaxPaths, SolverKind: "z3", TimeoutMs: tmo,
-				OrderPolicy: pol, MaxViol: 3, SampleEvery: 97 + seed%7, PanicIsViolation: h.Panics, Deadline: deadline}
+				OrderPolicy: pol, MaxViol: 3, SampleEvery: 97 + seed%7, PanicIsViolation: true, Deadline: deadline}
 			if h.Unwind > 0 {
 				opt.Unwind = h.Unwind
 			}
